@@ -185,6 +185,11 @@ def rule(rng, balanced=True):
             k = rng.choice(['radinc', 'raddec', 'chginc', 'chgdec'])
             edits.append((k, a, None, None))
             bal[a] += {'radinc': -1, 'raddec': 1, 'chginc': -1, 'chgdec': 1}[k]
+    # a bond that is not broken may leave its order open in the pattern: the balance of an
+    # order increase / decrease does not depend on the order that is matched
+    for a, b, kind in bonds:
+        if rng.random() < .25:
+            f['items'][a]['bond'] = rng.choice(['any', 'nonring'])
     if balanced:
         for a in range(n):
             while bal[a] > 0:
